@@ -1,4 +1,6 @@
 """C12 (line-ending taint), C13 (trailing-newline non-interference), C16 (ordinary text / write inertness)."""
+import re
+
 import core as C
 import flow as Fl
 import taint as Tn
@@ -60,6 +62,15 @@ def r12_1(ctx):
                 src[tn.node_of_place(b, t["dest"])] = "file content (%s)" % nm
             elif nm in ("std::string::String::from_utf8_lossy", "std::string::String::from_utf8") and b.name != ROLE["shell_run"]:
                 src[tn.node_of_place(b, t["dest"])] = "decoded bytes"
+            elif nm in ("std::io::Read::read_to_string", "std::io::Read::read_to_end", "std::io::BufRead::read_line", "std::io::BufRead::read_until",
+                        "std::io::Read::read_exact", "std::io::Read::read") or re.search(r" as std::io::(Buf)?Read>::(read_to_string|read_to_end|read_line|read_until|read)$", nm):
+                # handle-based reads write through their &mut buffer argument
+                if b.name not in (ROLE["write_output"], ROLE["get_line_ending"]) and "::get_line_ending::" not in b.name and len(t["args"]) > 1:
+                    n = tn.node_of_op(b, t["args"][-1])
+                    if n is not None:
+                        src[n] = "file content read through a handle (%s)" % nm.rsplit("::", 1)[-1]
+            elif nm in ("std::env::var", "std::env::var_os", "std::env::args"):
+                src[tn.node_of_place(b, t["dest"])] = "environment"
     for c in tn.text_const_nodes(has_newline):
         if c[1] != ROLE["get_line_ending_from_buf"]:
             src[c] = "constant %s" % c[3]
@@ -145,6 +156,40 @@ def _sep_ok(b, op, param_name=None):
     return False
 
 
+def _accumulator_independent(ctx, b):
+    """separator placement must not depend on the text accumulated so far: a separator push that is control-dependent on a predicate over the
+    accumulator (`if !output.is_empty() { push(sep) }`) miscounts separators when pieces are empty (leading blank lines vanish)"""
+    lib = ctx.lib
+    acc = set()
+    for bb, t in b.calls():
+        if C.callee_name(t) in (PUSH_STR, "std::string::String::push"):
+            for l in C.trace(b, t["args"][0]):
+                acc.add((l.kind, l.bb, l.data if l.kind == "param" else None) if l.kind != "call" else ("call", l.bb, None))
+    if not acc:
+        return
+    sep_sites = [bb for bb, t in b.calls() if C.callee_name(t) == PUSH_STR and _sep_ok(b, t["args"][1])]
+    for sbb in C.switches(b):
+        c = C.switch_cond(b, sbb)
+        if c.kind != "bool":
+            continue
+        on_acc = False
+        for leaf in c.src:
+            if leaf.kind == "call" and leaf.data["args"]:
+                for l in C.trace(b, leaf.data["args"][0]):
+                    k = (l.kind, l.bb, l.data if l.kind == "param" else None) if l.kind != "call" else ("call", l.bb, None)
+                    if k in acc:
+                        on_acc = True
+        if not on_acc:
+            continue
+        for val, eid in C.bool_edges(b, sbb).items():
+            for site in sep_sites:
+                if site in C.exclusive_region(b, {eid}):
+                    ctx.violation([b.name, "separator-depends-on-accumulator"], "a line separator is written depending on a test of the text accumulated so far "
+                                  "(%s): empty pieces are then joined without separator" % sorted(set(filter(None, c.src_callees()))), site=ctx.site(b, site))
+                    return
+    ctx.ok("separator placement in %s does not depend on the accumulated text" % b.name.rsplit("::", 1)[-1], site=ctx.site(b, 0))
+
+
 @rule("C12", "R12.3", floor=8)
 def r12_3(ctx):
     lib = ctx.lib
@@ -172,14 +217,25 @@ def r12_3(ctx):
             else:
                 ctx.violation([b.name, "fdo-input"], "format_directive_output is fed something other than str::lines() items or directive arguments "
                               "(e.g. split('\\n') keeps '\\r'): %s" % [repr(l) for l in lv][:4], site=ctx.site(b, bb))
-        # (b) inside: separators
+        # (b) inside: every piece pushed is the separator (line_ending), the indentation parameter or an item of the line iterator
+        p_ws = fdo.param_index_by_name("whitespaces")
         for bb, t in fdo.calls():
             nm = C.callee_name(t)
-            if nm in (JOIN, PUSH_STR):
+            if nm == JOIN:
                 if _sep_ok(fdo, t["args"][1]):
-                    ctx.ok("format_directive_output: %s separator is line_ending" % nm.rsplit("::", 1)[-1], site=ctx.site(fdo, bb))
+                    ctx.ok("format_directive_output: join separator is line_ending", site=ctx.site(fdo, bb))
                 else:
-                    ctx.violation([fdo.name, "sep", nm], "format_directive_output pushes a separator that is not IOCtx.line_ending", site=ctx.site(fdo, bb))
+                    ctx.violation([fdo.name, "sep", nm], "format_directive_output joins with a separator that is not IOCtx.line_ending", site=ctx.site(fdo, bb))
+            elif nm == PUSH_STR:
+                lv = C.trace(fdo, t["args"][1], through_fields=True, transparent=lambda tt: C.is_transparent(tt) or C.callee_name(tt).endswith("Iterator>::next")
+                             or C.callee_name(tt).endswith("Iterator::next") or C.callee_name(tt).endswith("::into_iter"))
+                if _sep_ok(fdo, t["args"][1]):
+                    ctx.ok("format_directive_output: pushed separator is line_ending", site=ctx.site(fdo, bb))
+                elif lv and all(l.kind == "param" and l.data in (p_ws, p_it) for l in lv):
+                    ctx.ok("format_directive_output: pushed piece is the indentation / a line item", site=ctx.site(fdo, bb))
+                else:
+                    ctx.violation([fdo.name, "piece", nm], "format_directive_output pushes text that is neither line_ending, the indentation nor a line item: %s" % (
+                        [repr(l) for l in lv][:3]), site=ctx.site(fdo, bb))
             elif nm in ("std::string::String::push", "std::vec::Vec::<T, A>::push") or nm.endswith("::extend") or nm.endswith("::insert_str"):
                 ctx.violation([fdo.name, "extra-push", nm], "format_directive_output builds its result with %s (unreviewed piece)" % nm, site=ctx.site(fdo, bb))
         for cl in lib.closures_of(fdo):
@@ -189,6 +245,7 @@ def r12_3(ctx):
                         ctx.violation([cl.name, "const-newline"], "the per-line formatter of format_directive_output contains a line terminator constant",
                                       site=ctx.site(cl, bb))
         ctx.ok("format_directive_output: per-line formatter has no terminator constant", site=ctx.site(fdo, 0))
+        _accumulator_independent(ctx, fdo)
     # (c) replace_line_ending
     if rle:
         for bb, t in rle.calls():
@@ -211,6 +268,7 @@ def r12_3(ctx):
         ls = calls_to(rle, LINES)
         if not ls or not all(has_param(C.trace(rle, t["args"][0]), rle, "self") for bb, t in ls):
             ctx.violation([rle.name, "lines"], "replace_line_ending no longer splits its input with str::lines()", site=ctx.site(rle, 0))
+        _accumulator_independent(ctx, rle)
     # (d) inject_tags: pieces are slices of the (terminator-free) line or normalised tag content
     if inj:
         for bb, t in inj.calls():
@@ -566,3 +624,19 @@ def r16_5(ctx):
     further `TXTPP#`, is argument text"""
     import rules_dir
     rules_dir.r15_4(ctx)
+
+
+@rule("C12", "R12.5", floor=2)
+def r12_5(ctx):
+    """allow-list form of R12.1 for temp files: the content handed to write_temp_file is the formatter's result or the empty string"""
+    lib = ctx.lib
+    pv = prov(ctx)
+    for (b, bb, t) in C.all_call_sites(lib, lambda ns, t: ROLE["write_temp_file"] in ns):
+        leaves = pv.leaves(b, t["args"][2])
+        bad = [l.describe() for l in leaves if not ((l.kind == "call" and l.callee() == ROLE["format_directive_output"]) or
+                                                    (l.kind == "const" and (C.op_const(l.data) or "") == '""'))]
+        if bad:
+            ctx.violation([b.name, "temp-content", ";".join(sorted(set(bad)))[:120]], "temp file content derives from %s (only the formatter's output or the empty "
+                          "string is line-ending safe)" % sorted(set(bad))[:3], site=ctx.site(b, bb))
+        else:
+            ctx.ok("temp content = format_directive_output(..) | \"\"|%s" % b.name, site=ctx.site(b, bb))
